@@ -24,14 +24,16 @@ def run(ctx):
                         "in-place modification of the PRIOR pools is recorded (cov.prior_mutated) but is not a C24 violation (DESIGN 7: C26)"]
     import concurrent.futures as cf
     with cf.ThreadPoolExecutor(3) as ex:
-        c1 = dict(MC1, O="4" if ctx.quick else "8")
-        f1 = ex.submit(vf.mc, ctx, "MC_Authorizer", vf.cfg_text(constants=c1, invariants=["PoolBound", "RemovalSound"], properties=["StepShape"], view="View"),
-                       workers=4 if ctx.quick else 8, timeout=1500, label="MC_Authorizer/1core", coverage=False)
+        c1 = dict(MC1, O="8")
+        f1 = None if ctx.quick else ex.submit(vf.mc, ctx, "MC_Authorizer", vf.cfg_text(constants=c1, invariants=["PoolBound", "RemovalSound"], properties=["StepShape"], view="View"),
+                                              workers=8, timeout=1500, label="MC_Authorizer/1core", coverage=False)
         f2 = ex.submit(vf.mc, ctx, "MC_Authorizer", vf.cfg_text(constants=MC2Q if ctx.quick else MC2, invariants=["PoolBound", "RemovalSound"], properties=["StepShape"], view="View"),
-                       workers=3, timeout=1500, label="MC_Authorizer/2core")
+                       workers=2 if ctx.quick else 4, timeout=1500, label="MC_Authorizer/2core")
         fg = None if ctx.replay else ex.submit(vf.gen_cases, ctx, "Authorizer_Gen", {"Tier": '"%s"' % ctx.tier, "Seed": str(ctx.seed % 1000)}, timeout=1500, heap="6g")
         binp = vf.build_driver(ctx, "auth", "./internal/verifdrv/auth", FILES)
-        f1.result(); f2.result()
+        if f1:
+            f1.result()
+        f2.result()
         casep = fg.result() if fg else None
     if ctx.replay:
         # a replay file holds rejected trace records: rebuild their inputs (histories are replayed block by block)
